@@ -859,9 +859,7 @@ class Workspace(AbstractContextManager):
             H5Reader.fetch_metadata,
             uid,
             argument=argument,
-            entity_type=(
-                "Groups" if isinstance(self.get_entity(uid)[0], Group) else "Objects"
-            ),
+            entity_type=self.str_from_type(self.get_entity(uid)[0]) or "Objects",
             mode="r",
         )
 
